@@ -43,7 +43,12 @@ func loadFixtures(repo string) (*fixtures, error) {
 	if !bytes.Contains(base, []byte("test.localhost")) || !bytes.Contains(base, []byte("128Mi")) {
 		return nil, fmt.Errorf("fixture deployment-v2.yaml no longer has the expected host/memory lines")
 	}
+	nohost, err := os.ReadFile(filepath.Join(dir, "deployment-v2-nohost.yaml"))
+	if err != nil {
+		return nil, err
+	}
 	texts := map[int][]byte{
+		5: nohost, // only met in traces of the repository's own tests (HTTPServicesRequireAtLeastOneHost)
 		1: base,
 		2: newc,
 		3: bytes.Replace(base, []byte("test.localhost"), []byte(takenHost), -1),
